@@ -255,7 +255,12 @@ def execute(plan, world_cls=PfWorld):
         if plan['mode'] == 'layout' and 'lines' in plan['outputs']:
             # the detected lines are not known in advance: a page's crops are those of the uninterrupted run
             for p in ids:
-                exp[p]['lines'] = sorted(f for f in gt_snap if f.startswith('lines/%s-' % p))
+                exp[p]['lines'] = []
+            for f in sorted(gt_snap):
+                if f.startswith('lines/'):
+                    owners = [p for p in ids if f.startswith('lines/%s-' % p)]
+                    if owners:          # ids may be prefixes of each other (scan-7, scan-7-2): the longest one owns the crop
+                        exp[max(owners, key=len)]['lines'].append(f)
             res.probe('layout_mode_lines_from_ground_truth')
         bad = [p for p in ids if not is_complete(exp[p], gt_snap)]
         if gt_proc.exit != 'ok' or bad:
